@@ -293,6 +293,9 @@ def norm_type(t):
     t = re.sub(r',allocator<[^<>]*(<[^<>]*>)?[^<>]*>', '', t)
     t = re.sub(r'numeric_type_of<[^<>]*(<[^<>]*>)?[^<>]*>', 'double', t)
     t = re.sub(r'^multi_channel_integrand<.*>::map_type$', 'vpinst::Map', t)
+    t = re.sub(r'^hep_mc_result<.*>$', 'mc_result<double>', t)
+    t = re.sub(r'^hep_plain_result<.*>$', 'plain_result<double>', t)
+    t = re.sub(r'^hep_numeric_type<.*>$', 'double', t)
     m = re.match(r'^(?:chkpt|vegas_chkpt|multi_channel_chkpt)<(.*)>::result_type$', t)
     if m:
         t = {'vegas_chkpt': 'vegas_result<double>', 'multi_channel_chkpt': 'multi_channel_result<double>'}.get(t.split('<')[0], m.group(1))
@@ -311,7 +314,7 @@ class TypeMap:
         ptr = q.endswith('*')
         if ptr:
             q = q.rstrip('*').strip()
-        const = bool(re.search(r'\bconst\b', q))
+        const = bool(re.match(r'^const\b', q.strip()) or re.search(r'\bconst$', q.strip()) or re.search(r'\bconst\s*[&*]*$', q.strip()))
         t = norm_type(q)
         if t in self.extra:
             ct, kind = self.extra[t]
@@ -850,6 +853,9 @@ class Emitter:
         if name == 'generate_canonical':
             self.fire('G14')
             return 'vp_generate_canonical(%s)' % self.arg(args[0], None)
+        if name == 'infinity' and not args:
+            self.fire('G3')
+            return 'VP_INFINITY'
         if name in ('max', 'min'):
             self.fire('G3')
             return 'vp_%s_sz(%s)' % (name, ', '.join(self.emit(a) for a in args))
@@ -1062,6 +1068,24 @@ class Emitter:
             r = h(self, n, args, dst)
             if r is not None:
                 return r
+        if bti['kind'] == 'iter':
+            # iterators are (container, index): comparisons, increments and dereferences act on the index (G7)
+            self.fire('G7')
+            if op in ('operator!=', 'operator==', 'operator<', 'operator<=', 'operator>', 'operator>='):
+                va, ia = self.iter_parts(args[0])
+                vb, ib = self.iter_parts(args[1])
+                if va != vb:
+                    raise ExtractError('comparison of iterators into different containers')
+                return '(%s %s %s)' % (ia, op[8:], ib)
+            if op in ('operator++', 'operator--'):
+                va, ia = self.iter_parts(args[0])
+                return '%s%s' % (op[8:], ia)
+            if op == 'operator->':
+                va, ia = self.iter_parts(args[0])
+                return '(&(%s).p[%s])' % (va, ia)
+            if op == 'operator*':
+                va, ia = self.iter_parts(args[0])
+                return '(%s).p[%s]' % (va, ia)
         if op == 'operator[]' and bti['kind'] == 'vec':
             self.fire('G7')
             return '(%s).p[%s]' % (self.emit(args[0]), self.emit(args[1]))
